@@ -310,7 +310,7 @@ def ir_flags(wd, defines=()):
     if not os.path.isdir(inc):
         gen_include_dir(wd)
     return ["-std=c++11", "-O1", "-fno-vectorize", "-fno-slp-vectorize", "-fno-unroll-loops", "-ffp-contract=off", "-nostdinc++", "-Wno-everything",
-            "-I" + MINISTL, "-I" + REPO, "-I" + inc, "-I" + E3H, "-I" + os.path.join(REPO, "extensions/bxdecay0_g4"), "-I" + os.path.join(REPO, "programs"), "-S", "-emit-llvm"] + ["-D" + d for d in defines]
+            "-I" + MINISTL, "-I" + os.path.join(VERIF, "engines/ir2c/g4standin"), "-I" + REPO, "-I" + inc, "-I" + E3H, "-I" + os.path.join(REPO, "extensions/bxdecay0_g4"), "-I" + os.path.join(REPO, "programs"), "-S", "-emit-llvm"] + ["-D" + d for d in defines]
 
 
 def ir_units(wd, units, unit_defines=None, srcdir=None):
